@@ -30,6 +30,7 @@ import (
 	"time"
 
 	"github.com/DataDog/datadog-traceroute/reversedns"
+	"github.com/DataDog/datadog-traceroute/packets"
 	"github.com/DataDog/datadog-traceroute/traceroute"
 
 	"verifharness/hx"
@@ -659,11 +660,65 @@ func TestC08(t *testing.T) {
 
 	c08WireCases(t, rep, orc, rng, env.Scale(10, 100), 20)
 	c08Sack(t, rep, orc, env.Thorough())
+	c08SackSilentPort(t, rep)
 	c08PublicIP(t, rep, rng, env.Scale(60, 1000))
 	c08Rdns(t, rep, rng, env.Scale(40, 600))
 	c08MultiStream(t, rep, rng.Fork(), env.Scale(250, 4000))
 
 	if rep.Failed() {
 		t.Fail()
+	}
+}
+
+// c08SackSilentPort: a SACK traceroute through the REAL parameter wiring (runTracerouteOnce →
+// makeSackParams → RunSackTraceroute) to a port that silently drops SYNs.  The connect attempt is the
+// handshake: it must be given up after the caller's time-out (HandshakeTimeout), not after the long
+// connection-teardown allowance or the kernel's own SYN retries.  Real sockets, real time: the bound
+// is generous (time-out + 3 s) and a watchdog reports a run that is still going.
+func c08SackSilentPort(t *testing.T, rep *hx.Report) {
+	port, cleanup, err := c20SilentPort()
+	if err != nil {
+		rep.Note("sack silent-port case skipped: a silent port cannot be staged in this sandbox (%v)", err)
+		return
+	}
+	defer cleanup()
+	for _, timeoutMs := range []int{200, 400} {
+		packets.VerifSetSourceSinkFactory(func(addr netip.Addr, _ bool) (packets.SourceSinkHandle, bool, error) {
+			w := newMemWire()
+			w.blockWhenEmpty = true
+			return w.Handle(), true, nil
+		})
+		params := traceroute.TracerouteParams{Hostname: "127.0.0.1", Protocol: "tcp", MinTTL: 1, MaxTTL: 3, Delay: 1,
+			Timeout: time.Duration(timeoutMs) * time.Millisecond, TCPMethod: traceroute.TCPMethod("sack")}
+		type res struct {
+			err error
+			el  time.Duration
+		}
+		done := make(chan res, 1)
+		start := time.Now()
+		go func() {
+			_, rerr := traceroute.VerifRunOnce(context.Background(), params, int(port))
+			done <- res{rerr, time.Since(start)}
+		}()
+		bound := params.Timeout + 3*time.Second
+		sample := map[string]any{"stream": "sack", "case": "silent-port (SYNs dropped)", "timeout": params.Timeout.String(), "bound_wall_clock": bound.String()}
+		select {
+		case r := <-done:
+			sample["elapsed_wall_clock"], sample["error"] = r.el.String(), fmt.Sprint(r.err)
+			rep.Case("sack", fmt.Sprint("silent-port", timeoutMs), true, sample)
+			rep.Hit("sack:silent-port")
+			if r.el > bound {
+				rep.Violate(hx.Violation{Kind: "spec", What: fmt.Sprintf("SACK traceroute to a port that drops SYNs returned after %s of real time, bound %s (the connect attempt must be given up at the caller's time-out)", r.el, bound),
+					Sig: map[string]string{"site": "sack", "behaviour": "exceeds-bound", "case": "silent-port"}, Replay: sample})
+			}
+		case <-time.After(bound + 2*time.Second):
+			sample["elapsed_wall_clock"] = "still running after " + (bound + 2*time.Second).String()
+			rep.Case("sack", fmt.Sprint("silent-port", timeoutMs), true, sample)
+			rep.Violate(hx.Violation{Kind: "spec", What: fmt.Sprintf("SACK traceroute to a port that drops SYNs did not return within %s of real time (time-out %s): the connect attempt is not bounded by the caller's time-out", bound+2*time.Second, params.Timeout),
+				Sig: map[string]string{"site": "sack", "behaviour": "no-return", "case": "silent-port"}, Replay: sample})
+			packets.VerifSetSourceSinkFactory(nil)
+			return // the stuck run keeps its goroutine; do not start another one behind it
+		}
+		packets.VerifSetSourceSinkFactory(nil)
 	}
 }
